@@ -54,17 +54,22 @@ def retry_policy(r):
                   r.choice([None, Some(C("Build_backoff_pb", Some(Z(10 * MS)), Some(Z(r.choice([10, 500]) * MS))))])))
 
 
-def route_config(name, stamp, clusters=None, retry=None):
+def route_config(name, stamp, clusters=None, retry=None, weighted=None):
+    """weighted: optional list of (cluster, weight) served by one further route (a cluster may be listed twice)"""
     clusters = clusters or ["cl-%d" % stamp]
     routes = []
     for i, cl in enumerate(clusters):
         act = C("ARoute", C("Build_raction_pb", C("CSCluster", cl), Some(Z((stamp % 1000 + 1) * MS)), retry))
         routes.append(C("Build_route_pb", "r%d" % i, Some(C("Build_rmatch_pb", C("PPrefix", "/"), L([]))), act))
+    if weighted:
+        act = C("ARoute", C("Build_raction_pb", C("CSWeighted", L([C("Build_wc_pb", c, Some(w)) for c, w in weighted])),
+                            Some(Z((stamp % 1000 + 1) * MS)), retry))
+        routes.append(C("Build_route_pb", "rw", Some(C("Build_rmatch_pb", C("PPrefix", "/w"), L([]))), act))
     return C("Build_rc_pb", name, L([C("Build_vhost_pb", "vh", L(routes))]))
 
 
-def cluster(name, stamp, eds=True, outlier=None, inline=None):
-    return C("Build_cluster_pb", name, Some(3), 0, Some("eds-%d" % stamp) if eds else None,
+def cluster(name, stamp, eds=True, outlier=None, inline=None, eds_name=None):
+    return C("Build_cluster_pb", name, Some(3), 0, Some(eds_name or "eds-%d" % stamp) if eds else None,
              None if outlier is None else Some(C("Build_outlier_pb", Some(outlier[0]), Some(outlier[1]))),
              None if inline is None else Some(inline))
 
@@ -177,25 +182,32 @@ class SysGen:
             if rt == "lds":
                 a = dict(port=r.choice([None, 80, 8888]), tokens=r.choice([None, 0, 7, 100]), inline=r.random() < 0.2)
             elif rt == "rds":
-                a = dict(clusters=["cl-%d" % st] + (["cl-shared"] if r.random() < 0.3 else []), retry=None if r.random() < 0.4 else retry_policy(r))
+                a = dict(clusters=["cl-%d" % st] + (["cl-shared"] if r.random() < 0.3 else []), retry=None if r.random() < 0.4 else retry_policy(r),
+                         weighted=None if r.random() < 0.7 else r.choice([
+                             [("wa-%d" % st, 10), ("wa-%d" % st, 80), ("wb-%d" % st, 10)], [("wa-%d" % st, 0), ("wa-%d" % st, 5), ("cl-shared", 0)],
+                             [("wa-%d" % st, 1), ("wb-%d" % st, 2), ("wa-%d" % st, 3)], [("wa-%d" % st, 7)]]))
             elif rt == "cds":
-                a = dict(eds=r.random() < 0.7, outlier=r.choice(OUTLIERS), inl=None if r.random() < 0.75 else (r.choice([0, 1, 2]), r.choice([0, 1, 2])))
+                a = dict(eds=r.random() < 0.7, outlier=r.choice(OUTLIERS), inl=None if r.random() < 0.75 else (r.choice([0, 1, 2]), r.choice([0, 1, 2])),
+                         eds_name=r.choice(self.NAMES["eds"]) if r.random() < 0.5 else None)
             else:
                 a = dict(nloc=r.choice([0, 1, 1, 2]), nep=r.choice([0, 1, 2]))
             # a resource pushed again exactly as before except for ONE policy field (the retry policy of a route table,
             # the outlier detection of a cluster, the token count of a listener, the endpoint count of a load assignment)
             pv = prev_args.get((rt, n))
-            if pv is not None and r.random() < 0.25:
+            k_again = r.random()
+            if pv is not None and k_again < 0.25:
                 st, old = pv
                 field = {"lds": "tokens", "rds": "retry", "cds": "outlier", "eds": "nep"}[rt]
                 a = dict(old, **{field: a[field]})
+            elif pv is not None and k_again < 0.4:
+                st, a = pv          # ... or exactly as it was when last pushed (possibly after having been absent for a while)
             prev_args[(rt, n)] = (st, a)
             if rt == "lds":
                 res = listener(n, st, port=a["port"], tokens=a["tokens"], inline=a["inline"])
             elif rt == "rds":
-                res = route_config(n, st, clusters=a["clusters"], retry=a["retry"])
+                res = route_config(n, st, clusters=a["clusters"], retry=a["retry"], weighted=a.get("weighted"))
             elif rt == "cds":
-                res = cluster(n, st, eds=a["eds"], outlier=a["outlier"],
+                res = cluster(n, st, eds=a["eds"], outlier=a["outlier"], eds_name=a.get("eds_name"),
                               inline=None if a["inl"] is None else endpoints(n, st, nloc=a["inl"][0], nep=a["inl"][1]))
             else:
                 res = endpoints(n, st, nloc=a["nloc"], nep=a["nep"])
